@@ -409,6 +409,7 @@ def gen_runs(ctx, prop):
         R("one_headers", MaxItems=2, MaxDev=1, PoolA={"w", "l3"}, PoolB={"w"}, HeaderMode="all", HeaderMaxBody=2, Feat={"comment", "block", "hoist"},
           Knobs={"alt", "ind", "final", "endOmit", "envOmit"})
         R("two_core_dev1", MaxItems=2, MaxDepth=1, MaxDev=1, PoolA=core, PoolB=micro, Feat=feat_all, Knobs=K)
+        R("meta_values", MaxItems=1, MaxDev=1, PoolA={"w"}, PoolC=core, HeaderMode="metavals", HeaderMaxBody=1, Knobs={"ind", "final"})
         R("three_struct", MaxItems=3, MaxDepth=2, MaxDev=0, PoolA={"w", "l3"}, PoolB={"int", "z1"}, PoolC={"w", "l3"}, Feat=feat_struct)
         R("three_comments", MaxItems=3, MaxDepth=2, MaxDev=2, PoolA={"w"}, PoolB={"int"}, PoolC={"w"},
           Feat={"block", "section", "comment", "cind"}, Knobs={"blank", "cind"})
@@ -422,6 +423,7 @@ def gen_runs(ctx, prop):
         R("two_headers", MaxItems=2, MaxDepth=1, MaxDev=1, PoolA=micro, PoolB={"w", "l3"}, HeaderMode="all", HeaderMaxBody=2,
           Feat={"comment", "block", "section", "hoist"}, Knobs={"alt", "final", "endOmit", "envOmit"})
         R("two_full_dev1", MaxItems=2, MaxDepth=1, MaxDev=1, PoolA=full, PoolB=micro, Feat=feat_all, Knobs=K)
+        R("meta_values", MaxItems=1, MaxDev=1, PoolA={"w"}, PoolC=full, HeaderMode="metavals", HeaderMaxBody=1, Knobs={"ind", "final", "endOmit"})
         R("two_core_dev2", MaxItems=2, MaxDepth=1, MaxDev=2, PoolA=core, PoolB=micro, Feat=feat_struct, Knobs=K)
         R("three_mini_dev1", MaxItems=3, MaxDepth=2, MaxDev=1, PoolA=mini, PoolB=mini, PoolC=micro, Feat=feat_struct, Knobs={"alt", "ind", "cind", "blank", "op"})
         R("four_comments", MaxItems=4, MaxDepth=2, MaxDev=1, PoolA={"w"}, PoolB={"int"}, PoolC={"w"},
